@@ -129,7 +129,15 @@ def entry_points(root):
     return eps
 
 
+class WorkExceeded(BaseException):
+    """Raised by the harness wrapper when far more expansions are pulled than any limit allows (BaseException so that
+    wcmatch's own `except Exception` around brace expansion cannot swallow it)."""
+
+
 class BracexCounter:
+    def __init__(self, cap=None):
+        self.cap = cap
+
     def __enter__(self):
         import bracex
         self.bracex = bracex
@@ -140,6 +148,8 @@ class BracexCounter:
         def iexpand(*a, **k):
             for item in outer.orig(*a, **k):
                 outer.drawn += 1
+                if outer.cap is not None and outer.drawn > outer.cap:
+                    raise WorkExceeded(outer.drawn)
                 yield item
         bracex.iexpand = iexpand
         return self
@@ -184,12 +194,18 @@ def run_case(eps, ename, incs, excs, inline, L, out, armed, explicit=True):
     case = {'entry': ename, 'limit': L, 'include': [repr(t) for t in incs], 'exclude': [repr(t) for t in excs], 'inline': inline,
             'T': T, 'U': U, 'verdict': v, 'patterns': pats if sum(map(len, pats)) < 300 else None, 'excl_patterns': excl if sum(map(len, excl)) < 300 else None}
     raised = None
-    with BracexCounter() as bc:
+    npats_ = len(pats) + len(excl)
+    cap = None if effL == 0 else effL + npats_ + 50
+    with BracexCounter(cap) as bc:
         try:
             eps[ename](pats, excl, inline, L)
             raised = False
         except WCP.PatternLimitException:
             raised = True
+        except WorkExceeded:
+            out.violation(dict(case, problem='expansion work not bounded by the limit (harness stopped the expansion)', drawn=bc.drawn),
+                          size=T, bucket=('work', ename))
+            return
         except Exception as e:
             out.violation(dict(case, problem='unexpected exception', error=list(util.exc_bucket(e))), bucket=('exc', ename, type(e).__name__))
             return
